@@ -273,8 +273,15 @@ def window_object(case, sdf, ws, kw):
     if fam == "expanding":
         make = lambda root: root.expanding(with_state=ws, **kw)
     else:
-        wkw = {"n": case["W"]} if fam in ("window-n", "wgroupby-n") else {"value": "%ds" % case["W"]}
-        make = lambda root: root.window(with_state=ws, **wkw, **kw)
+        # the window can be spelled with a keyword or positionally, a time window also as a Timedelta
+        spell = case.get("spell", "kw")
+        if fam in ("window-n", "wgroupby-n"):
+            wargs, wkw = ((case["W"],), {}) if spell in ("pos", "td") else ((), {"n": case["W"]})
+        else:
+            import pandas as pd
+            val = pd.Timedelta(seconds=case["W"]) if spell in ("td", "tdkw") else "%ds" % case["W"]
+            wargs, wkw = ((val,), {}) if spell in ("pos", "td") else ((), {"value": val})
+        make = lambda root: root.window(*wargs, with_state=ws, **wkw, **kw)
     tr = transform_of(case)
     reset = bool(case.get("reset_index"))
     if fam in ("wgroupby-n", "wgroupby-t"):
@@ -593,6 +600,8 @@ def model_lines(case):
         if fam == "rolling":
             agg = case["agg"]
             magg = {"std": "var", "aggregate": case.get("func")}.get(agg, agg)
+            if magg == "var" and case.get("ddof", 1) != 1:
+                magg = "var%d" % case["ddof"]
             hdr = {"op": "reset", "model": "rolling", "win": case["win"], "W": case["W"], "agg": magg}
             if agg == "quantile":
                 hdr["q"] = case["q"]
@@ -911,6 +920,8 @@ def make_case(rng, fam, table=None, sizes=None):
     case["new_first"] = rng.random() < 0.5
     case["p2_ws"] = rng.random() < 0.6
     case["select"] = "after" if rng.random() < 0.5 else "before"      # sdf.window(..).x.agg() vs sdf.x.window(..).agg()
+    if fam in ("window-n", "window-t", "wgroupby-n", "wgroupby-t"):
+        case["spell"] = rng.choice(["kw", "kw", "pos", "td", "tdkw"])
     if fam in ("window-n", "expanding", "wgroupby-n") and rng.random() < 0.25:
         case["reset_index"] = True
     if fam in ("window-n", "window-t", "expanding", "wgroupby-n", "wgroupby-t") and rng.random() < 0.5:
@@ -953,6 +964,12 @@ CORPUS = [
     corpus_case("expanding", "sum", [2, 1, 2, 2], fault=1),
     corpus_case("ewm", "ewm", [2, 1, 2, 2], param="com", pval=[1, 1], fault=1, table={**T7, "x": [1, 3, 2, 1, 4, 1, 1], "y": [2, 0, 1, 2, 3, 3, 1]}),
     corpus_case("reduction", "mean", [2, 1, 2, 2], via="method", fault=1),
+    # positional spellings of the window: window('3s'), window(Timedelta), window(3)
+    corpus_case("window-t", "sum", [2, 1, 2, 2], W=3, spell="pos"),
+    corpus_case("window-t", "mean", [2, 2, 3], W=2, spell="td", frame="df", mode="lockstep"),
+    corpus_case("wgroupby-t", "sum", [2, 1, 2, 2], W=3, grouper="col", spell="pos"),
+    corpus_case("window-n", "sum", [2, 1, 2, 2], W=3, spell="pos", mode="eager"),
+    corpus_case("window-t", "count", [2, 1, 2, 2], W=3, spell="tdkw"),
     corpus_case("reduction", "mean", [2, 0, 3, 2], via="method", frame="df"),
     corpus_case("reduction", "mean", [0, 0, 3, 4], via="method"),                       # zero-count state is resumed too
     corpus_case("reduction", "count", [1, 1, 1, 1, 1, 1, 1], via="method", mode="lockstep"),
